@@ -291,6 +291,7 @@ type sobs struct {
 	HdrPresent       bool     `json:"hdrPresent"`
 	RejectHdrPresent bool     `json:"rejectHdrPresent"`
 	BodyLenOK        bool     `json:"bodyLenOK"`
+	BodyIsErr        bool     `json:"bodyIsErr"` // the body is the text of the error Upgrade returned
 	HasVersion13     bool     `json:"hasVersion13"`
 	Err              string   `json:"err"`
 }
@@ -329,6 +330,7 @@ func observe(resp []byte, hs ws.Handshake, err error, key string) sobs {
 		cl := h.first("Content-Length")
 		n, e := strconv.Atoi(cl)
 		o.BodyLenOK = (cl == "" && len(h.Body) == 0) || (e == nil && n == len(h.Body))
+		o.BodyIsErr = err != nil && strings.TrimRight(string(h.Body), "\r\n") == strings.TrimRight(err.Error(), "\r\n")
 		o.HasVersion13 = h.first("Sec-WebSocket-Version") == "13"
 	}
 	o.HdrPresent = h.first("X-Server") == "verif"
@@ -348,6 +350,9 @@ func (b *rwBuf) Write(p []byte) (int, error) { return b.w.Write(p) }
 func rejectErr(status int) error {
 	if status == 0 {
 		return errors.New("plain rejection")
+	}
+	if status == -2 { // a plain error that wraps one of the library's own handshake errors
+		return fmt.Errorf("the application objects (and mentions why): %w", ws.ErrHandshakeBadHost)
 	}
 	if status == -1 { // a rejection that brings headers and a reason but no status of its own: answered as 500
 		return ws.RejectConnectionError(ws.RejectionReason("rejected by callback"),
